@@ -37,7 +37,7 @@ Paths2 == SeqsUpTo({"a", "b"}, PathLen2)
 \* ---- documents
 PatPool == << <<"*">>, <<"a", "/", "*">>, <<"a", "/", "b">>, <<"?">>, <<"*", ".", "a">>, <<"\\*">>, <<"a", "/", "?">> >>
 DocPaths == << <<"a","/","b">>, <<"a","/","a">>, <<"b">>, <<"b",".","a">>, <<"*">>, <<"a","/","b","/","a">> >>
-\* Files paragraph: pats (1..2 indices into PatPool), sameLine, lic (1..2 = licence name id), inline (has own text)
+\* Files paragraph: pats (1..2 indices into PatPool), sameLine ("sp" | "nl" | "tab": how the patterns are separated), lic (1..2 = licence name id), inline (has own text)
 FP(p, sl, l, inl) == [pats |-> p, sameLine |-> sl, lic |-> l, inline |-> inl]
 AnyMatch(fp, path) == \E i \in 1..Len(fp.pats) : Match(PatPool[fp.pats[i]], path)
 FindFiles(fps, path) == IF \E i \in 1..Len(fps) : AnyMatch(fps[i], path)
@@ -56,7 +56,7 @@ LicenceFor(fps, sl, path) ==
 VARIABLE case
 Next == UNCHANGED case
 FPs == { FP(p, sl, l, inl) : p \in { <<i>> : i \in 1..Len(PatPool) } \cup { <<1, 3>>, <<3, 4>>, <<2, 5>>, <<7, 6>> },
-                             sl \in BOOLEAN, l \in 1..2, inl \in BOOLEAN }
+                             sl \in {"sp", "nl", "tab"}, l \in 1..2, inl \in BOOLEAN }   \* patterns separated by a blank, a line break, a TAB
 Init ==
   \/ \E pat \in SeqsUpTo(PatTok, PatLen) :
        case = [k |-> "glob", pat |-> pat, m |-> { p \in Paths : Match(pat, p) }, ps |-> Paths]
@@ -67,7 +67,7 @@ Init ==
        case = [k |-> "doc", fps |-> fps, sl |-> sl,
                ff |-> [i \in 1..Len(DocPaths) |-> FindFiles(fps, DocPaths[i])],
                lf |-> [i \in 1..Len(DocPaths) |-> LicenceFor(fps, sl, DocPaths[i])]]
-  \/ \E a \in FPs, b \in { FP(<<1>>, TRUE, 1, FALSE), FP(<<3>>, FALSE, 2, TRUE) }, c \in { FP(<<2>>, TRUE, 2, FALSE), FP(<<4, 5>>, FALSE, 1, TRUE) } :
+  \/ \E a \in FPs, b \in { FP(<<1>>, "sp", 1, FALSE), FP(<<3>>, "nl", 2, TRUE) }, c \in { FP(<<2>>, "sp", 2, FALSE), FP(<<4, 5>>, "tab", 1, TRUE) } :
        LET fps == <<b, a, c>> sl == <<2, 1, 2>> IN
        case = [k |-> "doc", fps |-> fps, sl |-> sl,
                ff |-> [i \in 1..Len(DocPaths) |-> FindFiles(fps, DocPaths[i])],
